@@ -147,7 +147,7 @@ Qed.
 
 Lemma unauth_item_fin : forall s a kp s', unauth_item s a kp = Ok s' -> fin s' = fin s.
 Proof.
-  intros s a [k pos] s' H. unfold unauth_item in H. msteps H.
+  intros s a [k pos] s' H. unfold unauth_item in H. msteps H. unfold unauth_apply in H.
   destruct (i_new _ <? _); [destruct (p_status _ =? ConsensusStatus)|]; msteps H; reflexivity.
 Qed.
 
